@@ -432,6 +432,12 @@ func (p *Parser) extendedGlob() bool {
 		// We don't support e.g. `function @() { ... }` at the moment, but we could.
 		return false
 	}
+	if p.r == '!' && p.lang.in(LangPOSIX) && p.tok != _LitWord && p.tok != _Lit {
+		// POSIX shells have no extended globs; `!(foo)` where a statement
+		// can begin is a negated subshell. After a word, as in `echo !(foo)`,
+		// we keep reporting the extended glob.
+		return false
+	}
 	if p.peek() == '(' {
 		// NOTE: empty pattern list is a valid globbing syntax like `@()`,
 		// but we'll operate on the "likelihood" that it is a function;
